@@ -9,7 +9,7 @@ def obligations(tier):
         for op in OPS:
             obs.append(dict(name='val_%s_%s' % (cfg, op), src='c20_values.c', cflags=cflags, nslots=1,
                             pre=['all_' + op], plain=[('all_' + op, 0)], unwind=2, unwinding_assertions=True,
-                            timeout=300,
+                            timeout=300, asm_contract=(cfg == 'x86asm'),
                             desc='uatomic_%s on a symbolic 16-byte image, symbolic aligned slot and operands, '
                                  'widths 1/2/4/8 signed+unsigned, implementation %s' % (op, cfg),
                             bounds=dict(widths=[1, 2, 4, 8], image_bytes=16, operands='all 2^64 patterns', impl=cfg)))
@@ -54,7 +54,10 @@ def obligations(tier):
 
 EXPLANATION = 'C20: uatomic value semantics (a), RMW atomicity (b), full-barrier semantics under x86-TSO (c)'
 OUTSIDE = 'non-x86 uatomic back ends (generic.h cmpxchg loops, other arch headers) are not compiled on this target'
-ASSUMPTIONS = ['a lock-prefixed x86 instruction / xchg is atomic and a full fence (asm table)']
+ASSUMPTIONS = ['a lock-prefixed x86 instruction / xchg is atomic and a full fence (asm table)',
+               'asm contract clause (val_x86asm_*): documented barrier instructions carry the memory clobber; an instruction that reads its '
+               'memory operand does not declare it write-only - checked where the instruction executes, because the encoding sees only '
+               'what clang made of the statement']
 LEVEL_TEXT = ('Bounded model checking of the real uatomic macros (x86 inline-asm implementation via the asm semantics table, and the '
               'compiler-builtin implementation) for all 2^64 operand patterns, all aligned slots of a 16-byte image, widths 1/2/4/8, '
               'signed and unsigned; RMW atomicity and barrier strength over all schedules/store-buffer delays of 2-3 threads within R rounds.')
